@@ -162,3 +162,76 @@ Ltac dmatch H :=
       | _ => destruct x eqn:?; try discriminate H
       end
   end.
+
+(* ---------- the three native / non-native difference points ---------- *)
+Lemma bank_send_spec s f t x s0 : bank_send s f t x = Some s0 ->
+  exists b B, sget (bank s) f = Some b /\ x <= b /\ s0 = w_bank B s /\
+    B = sset (sset (bank s) f (b - x)) t (match sget (sset (bank s) f (b - x)) t with Some y => y | None => 0 end + x).
+Proof.
+  unfold bank_send. destruct (sget (bank s) f) as [b|]; [|discriminate].
+  destruct (b <? x) eqn:E; [discriminate|]. apply Z.ltb_ge in E. intro H; inversion H; subst. eauto 10.
+Qed.
+
+Lemma take_spec s st a x s1 : take_from_staker s st a x = Some s1 ->
+  (is_native a = true /\ exists s0, bank_send s st pool_key x = Some s0 /\ s1 = log_ev (GEscIn a x) s0) \/
+  (is_native a = false /\ upd_sa s (sa_key st a) 0 (- x) 0 = Some s1).
+Proof.
+  unfold take_from_staker. destruct (is_native a).
+  - destruct (bank_send s st pool_key x) as [s0|]; [|discriminate]. intro H; inversion H; subst. left; eauto.
+  - destruct (sget (sa s) (sa_key st a)) as [info|]; [|discriminate].
+    destruct (sa_wd info <? x); [discriminate|]. intro H. right; auto.
+Qed.
+
+Lemma book_spec s st a tok s1 : book_pending s st a tok = Some s1 ->
+  (is_native a = true /\ s1 = s) \/ (is_native a = false /\ upd_sa s (sa_key st a) 0 0 tok = Some s1).
+Proof. unfold book_pending. destruct (is_native a); intro H; [inversion H; subst; left; auto | right; auto]. Qed.
+
+Lemma pay_spec s r s1 : pay_staker s r = Some s1 ->
+  (is_native (ur_asset r) = true /\ exists s0, bank_send s pool_key (ur_staker r) (ur_act r) = Some s0 /\
+                                               s1 = log_ev (GEscOut (ur_asset r) (ur_act r)) s0) \/
+  (is_native (ur_asset r) = false /\ upd_sa s (sa_key (ur_staker r) (ur_asset r)) 0 (ur_act r) (- ur_amt r) = Some s1).
+Proof.
+  unfold pay_staker. destruct (is_native (ur_asset r)).
+  - destruct (bank_send s pool_key (ur_staker r) (ur_act r)) as [s0|]; [|discriminate]. intro H; inversion H; subst. left; eauto.
+  - intro H. right; auto.
+Qed.
+
+(* what none of the three touches *)
+Definition same_but_sa_bank_log (s s' : st) : Prop :=
+  ur s' = ur s /\ pidx s' = pidx s /\ height s' = height s /\ hold s' = hold s /\ sidx s' = sidx s /\
+  oa s' = oa s /\ dg s' = dg s /\ tot s' = tot s /\ sl s' = sl s /\ operators s' = operators s /\ validators s' = validators s.
+
+Lemma upd_sa_same s k a b c s' : upd_sa s k a b c = Some s' -> same_but_sa_bank_log s s'.
+Proof. intro H. apply upd_sa_spec in H. destruct H as (r & -> & _). unfold same_but_sa_bank_log. simpl. auto 20. Qed.
+
+Lemma bank_send_same s f t x s0 : bank_send s f t x = Some s0 -> same_but_sa_bank_log s s0 /\ sa s0 = sa s /\ glog s0 = glog s.
+Proof. intro H. apply bank_send_spec in H. destruct H as (b & B & _ & _ & -> & _). unfold same_but_sa_bank_log. simpl. auto 20. Qed.
+
+Lemma take_same s st a x s1 : take_from_staker s st a x = Some s1 -> same_but_sa_bank_log s s1.
+Proof.
+  intro H. apply take_spec in H. destruct H as [(_ & s0 & B & ->)|(_ & U)]; [|eapply upd_sa_same; eauto].
+  apply bank_send_same in B. destruct B as (F & _). unfold same_but_sa_bank_log, log_ev in *. simpl. exact F.
+Qed.
+Lemma book_same s st a x s1 : book_pending s st a x = Some s1 -> same_but_sa_bank_log s s1.
+Proof.
+  intro H. apply book_spec in H. destruct H as [(_ & ->)|(_ & U)]; [|eapply upd_sa_same; eauto].
+  unfold same_but_sa_bank_log. auto 20.
+Qed.
+Lemma pay_same s r s1 : pay_staker s r = Some s1 -> same_but_sa_bank_log s s1.
+Proof.
+  intro H. apply pay_spec in H. destruct H as [(_ & s0 & B & ->)|(_ & U)]; [|eapply upd_sa_same; eauto].
+  apply bank_send_same in B. destruct B as (F & _). unfold same_but_sa_bank_log, log_ev in *. simpl. exact F.
+Qed.
+
+Lemma deposit_shape s st a x s' : deposit s st a x = Some s' ->
+  (is_native a = true /\ s' = s) \/ (is_native a = false /\ deposit_lst s st a x = Some s').
+Proof.
+  unfold deposit, deposit_native. destruct (is_native a); [|auto].
+  destruct (x <? 0); [discriminate|]. destruct (sget (tot s) a); [|discriminate]. intro H; inversion H; auto.
+Qed.
+Lemma withdraw_shape s st a x s' : withdraw s st a x = Some s' ->
+  (is_native a = true /\ s' = s) \/ (is_native a = false /\ withdraw_lst s st a x = Some s').
+Proof.
+  unfold withdraw, deposit_native. destruct (is_native a); [|auto].
+  destruct (x <? 0); [discriminate|]. destruct (sget (tot s) a); [|discriminate]. intro H; inversion H; auto.
+Qed.
